@@ -17,7 +17,7 @@ theorem dictSet_absent {κ ν} [BEq κ] (l : List (κ × ν)) (k : κ) (v : ν) 
     Py.dictSet l k v = l ++ [(k, v)] := by
   unfold Py.dictSet; simp only [h, Bool.false_eq_true, if_false]
 
-theorem dictPut_absent {κ ν} [DecidableEq κ] : ∀ (l : List (κ × ν)) (k : κ) (v : ν), l.lookup k = none →
+theorem dictPut_absent {κ ν} [BEq κ] [LawfulBEq κ] [DecidableEq κ] : ∀ (l : List (κ × ν)) (k : κ) (v : ν), l.lookup k = none →
     dictPut l k v = l ++ [(k, v)] := by
   intro l
   induction l with
